@@ -407,6 +407,56 @@ let cmd_merge (arg : string) : string =
   let snaps = List.map (fun evs -> (fst (pc_run (pc_new (nat_of_int (int_of_string limit))) evs)).pc_clients) segs in
   "C=" ^ render_cmap (rep_receive [] snaps)
 
+(* ---------- envelope ---------- *)
+let render_kres (f : 'a -> string) (o : (kms_error, 'a) outcome) : string =
+  match o with
+  | Ok a -> "OK " ^ f a
+  | Err InvalidData -> "ERR InvalidData"
+  | Err OperationFailed -> "ERR OperationFailed"
+  | Err (ProviderError _) -> "ERR OperationFailed"
+  | Panic _ -> "PANIC"
+
+let cmd_envparse (arg : string) : string =
+  render_kres (fun ((w, n), c) -> hex_of_bytes w ^ " " ^ hex_of_bytes n ^ " " ^ hex_of_bytes c)
+    (parse_blob (bytes_of_hex (String.trim arg)))
+
+(* envdec <blob> <unwrap answer: OK:hex | ERR> <open answer: OK:hex | ERR> *)
+let cmd_envdec (arg : string) : string =
+  match String.split_on_char ' ' (String.trim arg) with
+  | [blob; ua; oa] ->
+    let ans s = if String.length s > 3 && String.sub s 0 3 = "OK:" then Some (bytes_of_hex (String.sub s 3 (String.length s - 3))) else None in
+    let unwrap _ = match ans ua with Some k -> Ok k | None -> Err (ProviderError N0) in
+    let opn _ _ _ _ = ans oa in
+    render_kres hex_of_bytes (decrypt_seed opn unwrap (bytes_of_hex blob))
+  | _ -> failwith "envdec args"
+
+(* ltk <seed> <realpk>: SRV value from the model (public key supplied by the Ed25519 oracle) *)
+let cmd_ltk (arg : string) : string =
+  match String.split_on_char ' ' (String.trim arg) with
+  | [seed; pk] ->
+    let pkb = bytes_of_hex pk in
+    Printf.sprintf "OK PK=%s SRV=%s" (hex_of_bytes (ltk_public_key (fun _ -> pkb) (bytes_of_hex seed)))
+      (hex_of_bytes (ltk_srv_value sha512 (fun _ -> pkb) (bytes_of_hex seed)))
+  | _ -> failwith "ltk args"
+
+(* cert <seed> <vers>: structure of the certificates the model builds (signature bytes are oracle values) *)
+let cmd_cert (arg : string) : string =
+  match String.split_on_char ' ' (String.trim arg) with
+  | [seed; vers] ->
+    let outs = List.map (fun v ->
+        match make_cert dummy_pk dummy_sign (version_of v) (bytes_of_hex seed) (bytes_of_string "online") with
+        | Ok cert ->
+          let dele = match get_field cert DELE with Some d -> d | None -> [] in
+          (match from_bytes dele with
+           | Ok dm ->
+             let g t = match get_field dm t with Some x -> x | None -> [] in
+             Printf.sprintf "NF=%d DELE=[MINT:%s,MAXT:%s,PUBKLEN:%d] OWN=1 OTHER=0" (List.length cert)
+               (hex_of_bytes (g MINT)) (hex_of_bytes (g MAXT)) (List.length (g PUBK))
+           | _ -> "BAD-DELE")
+        | _ -> "PANIC") (String.split_on_char ',' vers) in
+    "OK " ^ String.concat " | " outs
+  | _ -> failwith "cert args"
+
 let model_srv : server option ref = ref None
 
 let stats_totals (evs : sev list) : string =
@@ -482,7 +532,11 @@ let dispatch (line : string) : string =
   | "srep" -> cmd_srep rest
   | "serve" -> cmd_serve rest
   | "signer" -> cmd_signer rest
+  | "ltk" -> cmd_ltk rest
+  | "cert" -> cmd_cert rest
   | "stats" -> cmd_stats rest
+  | "envparse" -> cmd_envparse rest
+  | "envdec" -> cmd_envdec rest
   | "merge" -> cmd_merge rest
   | "verify" -> cmd_verify rest
   | "wfspec" -> cmd_wfspec rest
